@@ -1099,8 +1099,10 @@ impl History {
         }
         let n = self.rng.range(1, 3);
         for i in 0..n {
-            let p = match self.rng.below(4) {
+            let p = match self.rng.below(5) {
                 0 => Packet::PingReq(PingReq),
+                // (a DISCONNECT that reaches somebody else takes that client's will away and closes it)
+                4 => Packet::Disconnect(Disconnect { reason_code: DisconnectReasonCode::NormalDisconnection }, None),
                 1 => Packet::Subscribe(
                     Subscribe {
                         pkid: 6000 + i as u16,
